@@ -672,6 +672,8 @@ def find_replay_case(obj):
     if isinstance(obj, dict):
         if obj.get("kind") == "real-run" and "hosts" in obj:
             return ("real", obj)
+        if obj.get("kind") == "sched-run" and "sched_case" in obj:
+            return ("sched", obj)
         if all(k in obj for k in ("ops", "targets", "streams")) and isinstance(obj["ops"], list):
             return ("inproc", obj)
         for v in obj.values():
@@ -729,7 +731,7 @@ def d9_probe(ctx, exe, dist):
 def run_check(ctx, prop, props_module, level):
     """the whole procedure shared by checks/c05.py and checks/c06.py"""
     import threading
-    from vlib import relay_real
+    from vlib import relay_real, relay_sched
     rng = ctx.rng
     # the scratch build for the real-process part takes ~25 s: start it now, in the background
     builder = threading.Thread(target=ctx.repo_build)
@@ -745,7 +747,9 @@ def run_check(ctx, prop, props_module, level):
                    "after every newline / around 64, 1000, 2000, 4000, 8192 / small / random, with empty polls; "
                    "plus every string over {a,newline} up to length 4 (thorough 7) in every chunking; "
                    "non-trivial = stream with >= 2 lines and a chunk boundary strictly inside a line; distinct = "
-                   "distinct (payload, chunk sizes, options, targets, stream)"}
+                   "distinct (payload, chunk sizes, options, targets, stream); controlled-scheduler part: 2-6 targets "
+                   "with scripted stdout+stderr each under uniform/PCT/starve/eager/preempt-at-each-fputs schedules "
+                   "(thorough: all io interleavings of 4 tiny configurations), distinct = distinct (stream, schedule)"}
     dist = {"tags": {}, "flavours": {}}
     exe_dbg = build_harness(ctx, "relay_dbg", assertions=True)
     exe_rel = build_harness(ctx, "relay_rel", assertions=False)
@@ -769,6 +773,9 @@ def run_check(ctx, prop, props_module, level):
                 ans, crash = impl[0]
                 ctx.log("replay [%s]: %d ops, %s" % (name, len(cases[0].ops), "aborted: " + crash[-200:] if crash else
                                                      "last answer `%s`" % (ans[-1][:120] if ans else "")))
+            builder.join()
+        elif kind == "sched":
+            relay_sched.replay_sched(ctx, prop, obj, cov, dist)
             builder.join()
         else:
             builder.join()
@@ -802,6 +809,8 @@ def run_check(ctx, prop, props_module, level):
             ctx.log("in-process [%s]: %d cases" % (name, len(cases)))
         d9_probe(ctx, exe_dbg, dist)
     if not replay:
+        # ---- third part: the unmodified dsh.c under the controlled scheduler, adversarial schedules
+        relay_sched.run_sched(ctx, prop, cov, dist)
         builder.join()
         relay_real.run_real(ctx, prop, cov, dist)
     cov["distinct_nontrivial"] = len(cov.pop("_distinct"))
@@ -820,5 +829,7 @@ def run_check(ctx, prop, props_module, level):
                       "hand-written model Relay/Model.lean tied to dsh.c/err.c by differential execution",
                       "Gen/Relay.lean, Gen/Cbuf.lean, Gen/Dsh.lean regenerated from /repo",
                       "harness/relay_harness.c (incl. its replica of dsh()'s 8-line domain loop), harness/relay_stubs.h, "
-                      "harness/relay_writer.c, vlib/relay.py, vlib/relay_real.py, gcc, ASan/UBSan, ld --wrap"],
+                      "harness/relay_writer.c, vlib/relay.py, vlib/relay_real.py, vlib/relay_sched.py + harness/sched/* "
+                      "(controlled scheduler: baton-gated pthreads, wrapped poll/read/fputs, stub transport), gcc, "
+                      "ASan/UBSan, ld --wrap"],
         checker_cmd="lake build %s && #print axioms on every theorem of it" % props_module)
